@@ -478,6 +478,20 @@ class generated_bpseq_data(generate_bpseq):
                 f"assert filtered_all(C0, SRC0, {_BP})",
                 "assert distinct(C0)", "assert no_self(C0)"]},
         {"when": "before", "at": "for pairs in matches.values()", "label": "snapshot", "do": ["let CAN = canonical"]},
+        {"when": "before", "at": "return self.__generate_bpseq(canonical)", "label": "final",
+         "do": [f"assert forall(lambda b: implies(0 <= b and b < len(canonical), exists(lambda p: 0 <= p and p < len({_BP}) and {_BP}[p] == canonical[b] and canon({_BP}[p]))))"]},
+        {"when": "after", "at": "if len(pairs) > 1", "label": "no-conflict-here",
+         "do": ["let KEY2 = list(matches.keys())[c2]",
+                "assert KEY2 in matches",
+                "assert forall(lambda a: implies(0 <= a and a < len(canonical) and touches(canonical[a], KEY2), canonical[a] in pairs))",
+                "assert forall(lambda a, b: implies(0 <= a and a < b and b < len(canonical), not (touches(canonical[a], KEY2) and touches(canonical[b], KEY2))))"]},
+        {"when": "after", "at": "pairs = sorted(", "label": "conflict",
+         "do": ["let KEY = list(matches.keys())[c2]",
+                "assert len(pairs) > 1 and pairs[0] != pairs[-1]",
+                "assert KEY in matches and pairs[0] in matches[KEY] and pairs[-1] in matches[KEY]",
+                "assert exists(lambda q: 0 <= q and q < len(canonical) and canonical[q] == pairs[0]) and touches(pairs[0], KEY)",
+                "assert exists(lambda q: 0 <= q and q < len(canonical) and canonical[q] == pairs[-1]) and touches(pairs[-1], KEY)",
+                "assert shares(pairs[-1], pairs[0])"]},
     ]
 
 
